@@ -26,7 +26,7 @@ RegCmds(c) ==
       St(c, "NICK", <<<<"ann">>>>), St(c, "NICK", <<<<"obs">>>>),
       St(c, "USER", <<<<"u1">>, <<"R">>>>), St(c, "USER", <<<<"reg1">>, <<"R">>>>), St(c, "USER", <<<<"reg2">>, <<"R">>>>),
       St(c, "USER", <<<<"reg3">>, <<"R">>>>),
-      St(c, "CAP", <<<<"LS">>>>), St(c, "CAP", <<<<"REQ">>, <<"multi-prefix">>>>), St(c, "CAP", <<<<"END">>>>), St(c, "QUIT", <<>>) }
+      St(c, "CAP", <<<<"LS">>>>), St(c, "CAP", <<<<"REQ">>, <<"multi-prefix">>>>), St(c, "CAP", <<<<"REQ">>, <<"sasl">>>>), St(c, "CAP", <<<<"END">>>>), St(c, "QUIT", <<>>) }
 Enabled(st) == st.c \in DOMAIN S.conns
 Steps == {st \in Gated \cup RegCmds(A) \cup {St(B, "NICK", <<<<"ann">>>>), St(B, "USER", <<<<"reg2">>, <<"R">>>>), St(B, "PASS", <<<<"srvpass">>>>)} : Enabled(st)}
 Init == InitWith(Cfg, Pre)
